@@ -91,19 +91,19 @@ def run_kani_check(pid, tier, jobs, functions, bounds, assumptions, timeout_q=90
 
 
 INPUTS_PARSERS = ["leaf_parser_total_exact_fields", "leaf_parser_rejects_every_other_length",
-                  "public_batch_parser_1x1_total_and_exact", "public_batch_parser_rejects_bad_counts_and_lengths"]
-INPUTS_PARSERS_T = ["private_batch_parser_n1_total_and_exact", "private_batch_parser_n2_total_and_exact",
-                    "private_batch_parser_rejects_malformed_lengths", "public_batch_parser_mn2_total_and_exact"]
+                  "public_batch_parser_1x1_total_and_exact", "public_batch_parser_rejects_bad_counts_and_lengths",
+                  "private_batch_parser_n1_total_and_exact", "private_batch_parser_rejects_malformed_lengths"]
+INPUTS_PARSERS_T = ["private_batch_parser_n2_total_and_exact", "public_batch_parser_mn2_total_and_exact"]
 
 
 @register("C24")
 def c24(pid, tier):
     hs = INPUTS_PARSERS + (INPUTS_PARSERS_T if tier == "thorough" else [])
     return run_kani_check(pid, tier, [("inputs", h) for h in hs],
-                          ["qp_wormhole_inputs::PublicCircuitInputs::try_from_u64_slice", "PrivateBatchPublicInputs::try_from_u64_slice (thorough)",
+                          ["qp_wormhole_inputs::PublicCircuitInputs::try_from_u64_slice", "PrivateBatchPublicInputs::try_from_u64_slice",
                            "PublicBatchPublicInputs::try_from_u64_slice", "hash_u64s_to_bytes_digest", "BytesDigest::try_from", "validate_proof_count", "public_batch_pi::try_pi_len"],
                           {"leaf": "every [u64;21] and every other length <= 24", "public_batch": "(M,N)=(1,1) all 26-felt vectors; all counts (full usize) x lengths <= 41 that do not match the layout are rejected; thorough adds M*N=2",
-                           "private_batch": "thorough tier only: N in {1,2} all vectors; lengths <= 72 off the layout rejected",
+                           "private_batch": "N=1 all 29-felt vectors; every length 0..72 off the layout (29, 50, 71) rejected without panic; thorough adds N=2 all vectors",
                            "outside": "larger layouts; the felt-based parsers of wormhole/circuit (plonky2 field types) and the u64-vs-felt cross-parser agreement are not encoded (see DESIGN.md)"},
                           [], timeout_q=1500, timeout_t=7200, parallel=4, mem_gb=14)
 
